@@ -29,6 +29,14 @@ property predicate is judged there, M = also compared with the Coq model):
                                        SignatureList, HDF5-backed file, out= contiguous/strided/reused, keywords, empty),
                                        jaccarddist_matrix (chunksize, ref_indices, out=), jaccarddist_pairwise (flat,
                                        indices), 1/2/5/default OpenMP threads, 4 concurrent Python threads (P)
+  any mix of types INSIDE a collection mixed: reference / query / pairwise collections (list, tuple, SignatureList and its
+                                       slices / fancy indices, reversed) whose ELEMENTS have different dtypes: all 36
+                                       ordered (first, later) dtype pairs, narrow-first, wide-first, same width signed /
+                                       unsigned, alternating, all six, odd one last, first element empty, empty elements of
+                                       another dtype, equal value sets in different dtypes, values at the top of each
+                                       element's own range; jaccarddist_array (out=, every element as query), _matrix
+                                       (mixed queries x mixed refs, chunksize, ref_indices, mixed queries x SignatureArray),
+                                       _pairwise (square, flat, indices); every cell judged (P), query row also (M)
   non-native / non-integer dtypes      malformed-dtype (exact or error)
   NumPy vs Python integers             the two functions take none; bulk passes ref_indices / indices / chunksize both as
                                        Python ints / lists and as NumPy intp arrays / int64 (P)
@@ -38,7 +46,8 @@ property predicate is judged there, M = also compared with the Coq model):
                                        the property); options, file names: the two observed functions have none.
 Layouts, bulk containers, reuse sequences and gen-large sizes are outside the list-based Coq model: the value
 semantics is the same, so form cases are still compared with the model (ops 205/206), gen-large with op 204
-(ratio_f32); bulk and reuse are judged by the property predicate alone."""
+(ratio_f32); bulk and reuse are judged by the property predicate alone; mixed by the predicate on every cell, and
+its (query, element) pairs are also compared with the model (op 205)."""
 import itertools
 
 import numpy as np
@@ -50,11 +59,17 @@ RULE = ('pairs of sorted duplicate-free integer arrays x dtype pairs x both argu
         'extension / same-object call forms of jaccarddist and jaccard), gen-large (seeded sets of 2*10^4..10^6 '
         'elements), bulk (a collection of signatures through jaccarddist_array / _matrix / _pairwise in every '
         'container, out= form and thread count, every cell judged), reuse (buffers overwritten in place between '
-        'calls); non-trivial there by the same rule (bulk / reuse: some pair of the case is non-trivial)')
+        'calls), mixed (collections whose ELEMENTS have different integer types -- narrow first, wide first, same width '
+        'signed / unsigned, alternating, all six, first element empty, empty elements of another type, each element at '
+        'the top of its own range -- as references, queries and pairwise collections in list / tuple / SignatureList '
+        'form, every cell judged); non-trivial there by the same rule (bulk / reuse: some pair of the case is '
+        'non-trivial; mixed: at least two element types differ and some pair is non-trivial)')
 TRUSTED = ['tools/pyx2v.py (Cython subset -> Gallina; C integer / binary32 semantics as documented in its header)',
            'Flocq 4 binary32 model of C float division on this platform (validated bit-for-bit by the run)',
            'harness oracle round_ratio_f32 (exact integer implementation of round-to-nearest-even)',
-           'NumPy set operations (intersect1d / union1d on uint64 values) as the counting oracle of the gen-large stream']
+           'NumPy set operations (intersect1d / union1d on uint64 values) as the counting oracle of the gen-large stream',
+           'Python set arithmetic on the generated value lists as the counting oracle of every cell of the bulk, mixed and '
+           'reuse streams (the expected pair of a cell is derived from the harness\'s own index lists)']
 ASSUMPTIONS = ['inputs are sorted and duplicate-free (outside that the property says nothing)',
                'C comparison of unsigned values of different widths is value-preserving',
                'array lengths < 2^62 (intptr_t arithmetic does not overflow)']
@@ -639,6 +654,136 @@ def k_bulk(ctx, cases):
 			omp_set_num_threads(before)
 
 
+def k_mixed(ctx, cases):
+	"""a collection whose ELEMENTS have different dtypes (sigs[i] stored as dts[i]) and a query (dtype dq), as the
+	references, the queries and the pairwise collection of the three bulk entry points, in every container that
+	can hold such a collection (list, tuple, SignatureList and its slices / fancy indices; a SignatureArray is
+	homogeneous by construction).  Every cell must be the property value of the pair it stands for; the
+	(query, element) pairs are also compared with the model."""
+	from gambit.metric import jaccarddist, jaccarddist_array, jaccarddist_matrix, jaccarddist_pairwise
+	from gambit.sigs.base import SignatureArray, SignatureList
+	from gambit._cython.threads import omp_set_num_threads, omp_get_max_threads
+	reqs = []
+	for c in cases:
+		kq, sq = KIND[c['dq'][0]], int(c['dq'][1])
+		reqs += [(205, [kq, sq, c['q'], KIND[d[0]], int(d[1]), x]) for x, d in zip(c['sigs'], c['dts'])]
+	small = max([len(c['q']) + len(x) for c in cases for x in c['sigs']] or [0]) <= 600
+	ans = ctx.model(reqs) if ctx.model_ok and small and reqs else None
+	pos = 0
+	before = omp_get_max_threads()
+	omp_set_num_threads(1)
+	try:
+		for c in cases:
+			sigs, dts, qv = c['sigs'], c['dts'], c['q']
+			n = len(sigs)
+			refs = [_arr(x, d) for x, d in zip(sigs, dts)]
+			q = _arr(qv, c['dq'])
+			if any(r.tolist() != x or r.dtype != np.dtype(d) for r, x, d in zip(refs, sigs, dts)) or q.tolist() != qv:
+				raise RuntimeError('harness: an element does not hold the case values in its own dtype')
+			su = {}
+
+			def exp(i, j):
+				key = (min(i, j), max(i, j))
+				if key not in su:
+					su[key] = _su(qv if key[0] < 0 else sigs[key[0]], qv if key[1] < 0 else sigs[key[1]])
+				return su[key]
+			every = [qv] + sigs
+			nontriv = len(set(dts)) > 1 and any(0 < len(set(x) & set(y)) < min(len(x), len(y))
+			                                     for x, y in itertools.combinations(every, 2))
+			ctx.case(c, nontrivial=nontriv)
+			perm = np.array(c['perm'], dtype=np.intp) if c.get('npidx') else c['perm']
+			lo = min(1, n)
+			nan = np.float32('nan')
+			qrow = [(-1, j) for j in range(n)]
+			allidx = [-1] + list(range(n))
+			queries = [q] + refs                 # a query collection of mixed dtypes
+			forms = []
+
+			def add(name, fn, pairs):
+				forms.append((name, fn, pairs))
+
+			def _sl(x):
+				# dtype defaults to the first element's; an empty list has none to take
+				return SignatureList(x) if len(x) else SignatureList(x, dtype=np.dtype('u8'))
+			add('jaccarddist_array(q, list)', lambda: jaccarddist_array(q, list(refs)), qrow)
+			add('jaccarddist_array(q, tuple)', lambda: jaccarddist_array(q, tuple(refs)), qrow)
+			add('jaccarddist_array(q, SignatureList(refs))', lambda: jaccarddist_array(q, _sl(refs)), qrow)
+			if n:
+				add('jaccarddist_array(q, SignatureList(refs, dtype=dtype of the LAST element))',
+				    lambda: jaccarddist_array(q, SignatureList(refs, dtype=refs[-1].dtype)), qrow)
+
+			def with_out():
+				o = np.full(n, nan, dtype=np.float32)
+				r = jaccarddist_array(query=q, refs=list(refs), out=o)
+				return list(o) + list(r)
+			add('jaccarddist_array(query=q, refs=list, out=new array): out then returned', with_out, qrow + qrow)
+			add('jaccarddist_array(q, reversed list)', lambda: jaccarddist_array(q, refs[::-1]), qrow[::-1])
+			add('jaccarddist_array(q, SignatureList[1:])', lambda: jaccarddist_array(q, _sl(refs)[lo:]), qrow[lo:])
+			add('jaccarddist_array(q, SignatureList[perm])', lambda: jaccarddist_array(q, _sl(refs)[perm]),
+			    [(-1, j) for j in c['perm']])
+			add('jaccarddist_array(element i, list) for every i',
+			    lambda: [v for i in range(n) for v in jaccarddist_array(refs[i], list(refs))], [(i, j) for i in range(n) for j in range(n)])
+			add('jaccarddist_array(element i, [q]) and jaccarddist(element i, q) for every i',
+			    lambda: [v for i in range(n) for v in (jaccarddist_array(refs[i], [q])[0], jaccarddist(refs[i], q), jaccarddist(q, refs[i]))],
+			    [(i, -1) for i in range(n) for _ in range(3)])
+			for cs in c['chunks']:
+				add(f'jaccarddist_matrix(mixed queries, mixed list, chunksize={cs})',
+				    lambda cs=cs: jaccarddist_matrix(queries, list(refs), chunksize=cs).ravel(), [(i, j) for i in allidx for j in range(n)])
+			add('jaccarddist_matrix(queries=tuple, refs=SignatureList, ref_indices=perm, chunksize=2, out=given)',
+			    lambda: jaccarddist_matrix(queries=tuple(queries), refs=_sl(refs), ref_indices=perm, chunksize=2,
+			                               out=np.full((n + 1, len(perm)), nan, dtype=np.float32)).ravel(),
+			    [(i, j) for i in allidx for j in c['perm']])
+			add('jaccarddist_matrix(mixed queries as SignatureList, [q])',
+			    lambda: jaccarddist_matrix(_sl(queries), [q]).ravel(), [(i, -1) for i in allidx])
+			# the same mixed queries against a (necessarily homogeneous) SignatureArray of the widest element type
+			wide = max(dts + [c['dq']], key=lambda d: (_dmax(d), d))
+			add(f'jaccarddist_matrix(mixed queries, SignatureArray of dtype {wide}, chunksize=2)',
+			    lambda: jaccarddist_matrix(queries, SignatureArray([_arr(x, wide) for x in sigs], dtype=np.dtype(wide)), chunksize=2).ravel(),
+			    [(i, j) for i in allidx for j in range(n)])
+			add('jaccarddist_pairwise(list)', lambda: jaccarddist_pairwise(list(refs)).ravel(), [(i, j) for i in range(n) for j in range(n)])
+			add('jaccarddist_pairwise([q] + list, flat=True)', lambda: jaccarddist_pairwise(list(queries), flat=True),
+			    [(i, j) for a, i in enumerate(allidx) for j in allidx[a + 1:]])
+			add('jaccarddist_pairwise(tuple + (q,))', lambda: jaccarddist_pairwise(tuple(refs) + (q,)).ravel(),
+			    [(i, j) for i in allidx[1:] + [-1] for j in allidx[1:] + [-1]])
+			add('jaccarddist_pairwise(SignatureList, indices=perm, flat=True)',
+			    lambda: jaccarddist_pairwise(SignatureList(refs), indices=perm, flat=True),
+			    [(c['perm'][i], c['perm'][j]) for i in range(len(perm)) for j in range(i + 1, len(perm))])
+			desc = f'element dtypes {dts}, query dtype {c["dq"]}'
+			row = None
+			for name, fn, pairs in forms:
+				try:
+					cells = list(fn())
+				except Exception as e:
+					ctx.violation('mixed', c, f'{name} ({desc}) raised {type(e).__name__}: {e}; every element is a sorted '
+					              f'duplicate-free array of an accepted integer type', impl=type(e).__name__)
+					break
+				if len(cells) != len(pairs):
+					ctx.violation('mixed', c, f'{name} ({desc}) returned {len(cells)} cells for {len(pairs)} pairs', impl=len(cells), spec=len(pairs))
+					break
+				msgs = [(k, _dist_problem(v, *exp(*pairs[k]))) for k, v in enumerate(cells)]
+				msgs = [(k, m) for k, m in msgs if m]
+				if msgs:
+					k, m = msgs[0]
+					i, j = pairs[k]
+
+					def who(i):
+						return f'query {qv} ({c["dq"]})' if i < 0 else f'element {i} {sigs[i]} ({dts[i]})'
+					ctx.violation('mixed', c, f'{name} ({desc}): cell {k} for the pair ({who(i)}, {who(j)}) = {m}',
+					              impl=[float(v) for v in cells][:200], spec=list(exp(i, j)))
+					break
+				if row is None:
+					row = [f32_bits(v) for v in cells]
+			else:
+				if ans is not None and row is not None:
+					for j in range(n):
+						if ans[pos + j] != [0, row[j]]:
+							ctx.broke('correspondence mixed (jaccarddist)', f'{desc}: q={qv} element {j}={sigs[j]}: impl bits {row[j]}, model {ans[pos + j]}')
+							break
+			pos += n
+	finally:
+		omp_set_num_threads(before)
+
+
 def k_reuse(ctx, cases):
 	"""the caller keeps ONE pair of buffers (and one out array, one SignatureArray) and overwrites them in place
 	between calls; every call must report the distance of the values present at that call.  Predicate only."""
@@ -708,7 +853,7 @@ def _timed(kind, fn):
 
 
 KINDS = {k: _timed(k, f) for k, f in dict(pair=k_pair, dtype=k_dtype, big=k_big, form=k_form, gen=k_gen, bulk=k_bulk,
-                                           reuse=k_reuse).items()}
+                                           reuse=k_reuse, mixed=k_mixed).items()}
 SHRINK = False
 
 
@@ -836,6 +981,77 @@ def _reuse_steps(rng, da, db):
 			steps.append([list(A), list(B)])
 	return steps
 
+MIXED_PATTERNS = ['narrow-first', 'wide-first', 'same-width', 'alternating', 'all-six', 'odd-one-last', 'first-empty',
+                  'empty-other-dtype', 'random']
+
+
+def _mixed_dtypes(rng, pattern):
+	"""the element dtypes of a heterogeneous collection (at least two different ones, except sometimes for 'random')"""
+	def width(d):
+		return int(d[1])
+	if pattern in ('narrow-first', 'wide-first'):
+		ds = [rng.choice(DTYPES) for _ in range(rng.randint(2, 5))]
+		if len({width(d) for d in ds}) == 1:
+			ds.append(rng.choice([d for d in DTYPES if width(d) != width(ds[0])]))
+		rng.shuffle(ds)
+		return sorted(ds, key=width, reverse=pattern == 'wide-first')
+	if pattern == 'same-width':
+		w = rng.choice('248')
+		ds = [rng.choice('ui') + w for _ in range(rng.randint(0, 3))] + ['u' + w, 'i' + w]
+		rng.shuffle(ds)
+		return ds
+	if pattern == 'alternating':
+		d1 = rng.choice(DTYPES)
+		d2 = rng.choice([d for d in DTYPES if width(d) != width(d1)])
+		return [d1, d2] * rng.randint(1, 3) + ([d1] if rng.random() < 0.5 else [])
+	if pattern == 'all-six':
+		return rng.sample(DTYPES, 6)
+	if pattern == 'odd-one-last':
+		d1 = rng.choice(DTYPES)
+		return [d1] * rng.randint(1, 4) + [rng.choice([d for d in DTYPES if d != d1])]
+	if pattern in ('first-empty', 'empty-other-dtype'):
+		d1 = rng.choice(DTYPES)
+		rest = [rng.choice([d for d in DTYPES if d != d1]) for _ in range(rng.randint(1, 2))]
+		return [d1] + [rng.choice(rest) for _ in range(rng.randint(1, 4))]
+	return [rng.choice(DTYPES) for _ in range(rng.randint(1, 6))]
+
+
+def _mixed_case(rng, dts, dq, pattern, chunks):
+	"""value sets for a collection stored element-wise as dts and a query stored as dq: a pool every array can hold,
+	plus for each array values of its OWN upper range (beyond the narrowest type of the case: its own maximum, just
+	above the narrowest maximum, low-bit collisions with pool values); some elements empty, some repeating the
+	value set of an earlier element (stored in another type)"""
+	n = len(dts)
+	m = min(_dmax(d) for d in dts + [dq])
+	pool = _universe(rng, m, rng.choice(['hug-top', 'hug-top', 'hug-bottom', 'pow2', 'spread']), rng.choice([4, 8, 16]))
+	even = rng.random() < 0.25          # even lengths only: a narrower element read as a wider type need not fail
+	sigs = []
+	for i, d in enumerate(dts):
+		x = set(rng.sample(pool, rng.randint(0, len(pool))))
+		if rng.random() < 0.75:
+			x |= _beyond(rng, m, _dmax(d), pool)
+		x = sorted(x)
+		prev = [y for y in sigs if not y or y[-1] <= _dmax(d)]
+		if prev and rng.random() < 0.15:
+			x = list(rng.choice(prev))
+		if rng.random() < 0.08:
+			x = []
+		if even:
+			x = x[:len(x) - len(x) % (4 if len(x) >= 8 else 2)]
+		sigs.append(x)
+	if pattern == 'first-empty':
+		sigs[0] = []
+	elif pattern == 'empty-other-dtype':
+		for i in rng.sample(range(1, n), rng.randint(1, max(1, (n - 1) // 2))):
+			if dts[i] != dts[0]:
+				sigs[i] = []
+	q = sorted(set(rng.sample(pool, rng.randint(0, len(pool)))) | (_beyond(rng, m, _dmax(dq), pool) if rng.random() < 0.6 else set()))
+	fits = [y for y in sigs if not y or y[-1] <= _dmax(dq)]
+	if fits and rng.random() < 0.1:
+		q = list(rng.choice(fits))
+	perm = [rng.randrange(n) for _ in range(rng.randint(1, n + 1))]
+	return dict(sigs=sigs, dts=list(dts), q=q, dq=dq, perm=perm, chunks=chunks, npidx=rng.random() < 0.3, pattern=pattern)
+
 
 def generate(ctx):
 	rng = ctx.rng
@@ -961,6 +1177,21 @@ def generate(ctx):
 		chunks = [2] if omp in (None, 5) else [None, 1, 2, nsig + 3]
 		ctx.count('stream:bulk-omp-' + str(omp or 'default'))
 		yield 'bulk', dict(sigs=sigs, dr=dr, q=q, dq=dq, perm=perm, omp=omp, chunks=chunks, hdf5=(i % 5 == 0), npidx=(i % 3 == 1))
+	# collections whose ELEMENTS have different dtypes, as references / queries / pairwise collection: first all 36
+	# ordered (first element, later elements) dtype pairs, then each ordering pattern in several variations
+	qi = 0
+	for rep in range(ctx.pick(1, 6)):
+		for d1, d2 in combos:
+			dq = DTYPES[(qi + rep) % 6]
+			qi += 1
+			dts = [d1, d2, d2] if rep % 2 == 0 else [d1, d1, d2]
+			ctx.count('stream:mixed-dtype-collection-first-later')
+			yield 'mixed', _mixed_case(rng, dts, dq, 'first-later', [2])
+	for i in range(ctx.pick(108, 900)):
+		pattern = MIXED_PATTERNS[i % len(MIXED_PATTERNS)]
+		ctx.count('stream:mixed-dtype-collection-' + pattern)
+		yield 'mixed', _mixed_case(rng, _mixed_dtypes(rng, pattern), DTYPES[(i // len(MIXED_PATTERNS)) % 6] if i < 54 else rng.choice(DTYPES),
+		                           pattern, [None, 1, 2] if i % 4 == 0 else [rng.choice([None, 1, 2, 3])])
 	# large seeded sets (|A|, |B| < 2^24): sizes between the random streams (<= 3000) and the two named 2^24 cases
 	fixed = [dict(seed=1, n=65536, da='u2', db='u2', place='full', shape='random', ov=3, strided=False),
 	         dict(seed=2, n=32768, da='i2', db='u8', place='full', shape='nested', ov=5, strided=True),
